@@ -134,6 +134,8 @@ Qed.
 #[local] Arguments apply_fn : simpl never.
 #[local] Arguments gather_map : simpl never.
 #[local] Arguments idx_nats : simpl never.
+#[local] Arguments remove_unref : simpl never.
+#[local] Arguments copy_map : simpl never.
 
 Section Proofs.
 Variable grow : nat -> nat -> nat.
@@ -354,6 +356,76 @@ Proof.
   - eapply amap_ok_mono; [|exact A1]; lia.
 Qed.
 
+Lemma alloc_map_ok n0 cont : forall h h' a,
+  alloc_map h cont = (h', a) -> n0 <= length h ->
+  frame n0 h h' /\ length h <= length h' /\ amap_ok (length h') a.
+Proof.
+  induction cont as [|[name xs] r IH]; cbn [alloc_map]; intros h h' a H Hn.
+  - injection H as <- <-. splits; auto. constructor.
+  - destruct (new_slice h xs 0) as [h1 s] eqn:E1.
+    destruct (alloc_map h1 r) as [h2 a2] eqn:E2.
+    injection H as <- <-.
+    destruct (new_slice_ok n0 _ _ _ _ _ E1 Hn) as (F1 & L1 & P1).
+    destruct (IH _ _ _ E2 ltac:(lia)) as (F2 & L2 & A2).
+    splits; try lia; [eapply frame_trans; eauto|].
+    apply amap_set_Forall; auto. unfold sl_ok; simpl; lia.
+Qed.
+
+Lemma copy_map_ok n0 h a h' c :
+  copy_map grow h a = (h', c) -> 0 < n0 -> n0 <= length h ->
+  frame n0 h h' /\ length h <= length h' /\ amap_ok (length h') c.
+Proof. unfold copy_map. apply build_map_ok. Qed.
+
+Lemma with_idx_ok n m s : mesh_ok n m -> sl_ok n s -> mesh_ok n (with_idx m s).
+Proof. intros (A & B & C & D & E & F) Hs. unfold with_idx. splits; cbn [idx mats v1 v2 v3 v4]; auto. Qed.
+Lemma with_mats_ok n m s : mesh_ok n m -> sl_ok n s -> mesh_ok n (with_mats m s).
+Proof. intros (A & B & C & D & E & F) Hs. unfold with_mats. splits; cbn [idx mats v1 v2 v3 v4]; auto. Qed.
+
+Lemma remove_unref_ok n0 h m h' r :
+  remove_unref grow h m = Some (h', r) -> 0 < n0 -> n0 <= length h -> mesh_ok (length h) m ->
+  frame n0 h h' /\ length h <= length h' /\ mesh_ok (length h') r.
+Proof.
+  unfold remove_unref; intros H H0 Hn Hm.
+  destruct (all_below (idx_nats h m) (attr_length m)); [|discriminate].
+  destruct (rebuild grow h m _ true (topo m) nil_slice (mats m)) as [h1 x] eqn:E1.
+  destruct (new_slice h1 _ 0) as [h2 s] eqn:E2.
+  injection H as <- <-.
+  destruct Hm as (A & B & _).
+  destruct (rebuild_ok n0 _ _ _ _ _ _ _ _ _ E1 H0 Hn) as (F1 & L1 & A1); auto.
+  { apply nil_ok; lia. }
+  destruct (new_slice_ok n0 _ _ _ _ _ E2 ltac:(lia)) as (F2 & L2 & P2).
+  split; [eapply frame_trans; eauto|]. split; [lia|].
+  apply with_idx_ok; [eapply mesh_ok_mono; [|exact A1]; lia | unfold sl_ok; lia].
+Qed.
+
+Lemma multi_loop_ok n0 m parts : forall h h' rs,
+  multi_loop grow h m parts = Some (h', rs) -> 0 < n0 -> n0 <= length h -> mesh_ok (length h) m ->
+  frame n0 h h' /\ length h <= length h' /\ Forall (mesh_ok (length h')) rs.
+Proof.
+  induction parts as [|[ix omat] r IH]; cbn [multi_loop]; intros h h' rs H H0 Hn Hm.
+  - injection H as <- <-. splits; auto.
+  - destruct (append_chunks grow h nil_slice (triples ix)) as [h1 s] eqn:E1.
+    destruct (append_chunks_ok n0 _ _ _ _ _ E1 Hn (nil_wr n0)) as (F1 & L1 & _ & _ & B1).
+    assert (Hs : ptr s < length h1) by (apply B1; simpl; lia).
+    destruct (match omat with None => (h1, mats m) | Some mat => new_slice h1 _ 0 end) as [h2 ms] eqn:E2.
+    assert (X : frame n0 h1 h2 /\ length h1 <= length h2 /\ sl_ok (length h2) ms).
+    { destruct omat.
+      - destruct (new_slice_ok n0 _ _ _ _ _ E2 ltac:(lia)) as (F2 & L2 & P2). splits; auto; try lia. unfold sl_ok; lia.
+      - injection E2 as <- <-. splits; auto. destruct Hm as (_ & B & _). eapply sl_ok_mono; [|exact B]; lia. }
+    destruct X as (F2 & L2 & M2).
+    destruct (remove_unref grow h2 _) as [[h3 x]|] eqn:E3; [|discriminate].
+    destruct (multi_loop grow h3 m r) as [[h4 xs]|] eqn:E4; [|discriminate].
+    injection H as <- <-.
+    assert (Hm2 : mesh_ok (length h2) m) by (eapply mesh_ok_mono; [|exact Hm]; lia).
+    destruct (remove_unref_ok n0 _ _ _ _ E3 H0 ltac:(lia)) as (F3 & L3 & A3).
+    { apply with_mats_ok; auto. apply with_idx_ok; auto. unfold sl_ok; lia. }
+    destruct (IH _ _ _ E4 H0 ltac:(lia)) as (F4 & L4 & A4).
+    { eapply mesh_ok_mono; [|exact Hm2]; lia. }
+    splits; try lia.
+    + eapply frame_trans; [exact F1|]. eapply frame_trans; [exact F2|]. eapply frame_trans; eauto.
+    + constructor; auto. eapply mesh_ok_mono; [|exact A3]; lia.
+Qed.
+
 Lemma repeat_loop_ok n0 src pid vals : forall h acc h' r,
   repeat_loop grow true h src acc pid vals = (h', r) -> 0 < n0 -> n0 <= length h ->
   mesh_ok (length h) src -> mesh_ok (length h) acc ->
@@ -394,6 +466,7 @@ Lemma exec_ok h p o :
   1 < length h -> pool_ok (length h) p ->
   match exec grow true h p o with
   | RNew h' m => frame (length h) h h' /\ length h <= length h' /\ mesh_ok (length h') m
+  | RMany h' ms => frame (length h) h h' /\ length h <= length h' /\ Forall (mesh_ok (length h')) ms
   | RSame h' => h' = h
   | RErr _ => True
   end.
@@ -489,15 +562,8 @@ Proof.
     splits; leaf.
   - (* ORemoveUnref *)
     destruct (nth_error p i) as [m|] eqn:Gi; auto.
-    destruct (all_below (idx_nats h m) (attr_length m)); auto.
-    destruct (rebuild grow h m _ true (topo m) nil_slice (mats m)) as [h1 r] eqn:E1.
-    destruct (new_slice h1 _ 0) as [h2 s] eqn:E2.
-    destruct (Hget _ _ _ Gi (le_n _)) as (A & B & _).
-    destruct (rebuild_ok (length h) _ _ _ _ _ _ _ _ _ E1 H0 Hn) as (F1 & L1 & A1); auto.
-    assert (Hn1 : (length h) <= length h1) by lia. new1 E2 (length h) Hn1.
-    assert (Hr : mesh_ok (length h2) r) by (eapply mesh_ok_mono; [|exact A1]; lia).
-    destruct Hr as (A' & B' & C & D & E' & G).
-    splits; cbn [idx mats v1 v2 v3 v4]; leaf.
+    destruct (remove_unref grow h m) as [[h1 r]|] eqn:E; auto.
+    apply (remove_unref_ok (length h) _ _ _ _ E H0 Hn). eapply Hget; eauto.
   - (* OWeld *)
     destruct (nth_error p i) as [m|] eqn:Gi; auto.
     destruct (amap_get (v3 m) name) as [data|]; auto.
@@ -523,6 +589,56 @@ Proof.
       destruct (repeat_loop grow true h m _ pid (v :: vs)) as [h1 r] eqn:E. apply X; reflexivity.
   - (* OExport *)
     destruct (nth_error p i); auto.
+  - (* OSetData *)
+    destruct (nth_error p i) as [m|] eqn:Gi; auto.
+    destruct (alloc_map h cont) as [h1 a] eqn:E.
+    destruct (alloc_map_ok (length h) _ _ _ _ E Hn) as (F1 & L1 & A1).
+    split; [auto|]. split; [lia|]. apply vset_ok; auto. eapply Hget; eauto.
+  - (* OIdent *)
+    destruct (nth_error p i) as [m|] eqn:Gi; auto.
+    split; [auto|]. split; [lia|]. eapply Hget; eauto.
+  - (* OFilter *)
+    destruct (nth_error p i) as [m|] eqn:Gi; auto.
+    destruct (has_topo req (topo m)); auto.
+    destruct (amap_get (vget m k) name) as [old|]; auto.
+    destruct (append_each grow h nil_slice keepidx) as [h1 s] eqn:E1.
+    destruct (append_chunks_ok (length h) _ _ _ _ _ E1 Hn (nil_wr (length h))) as (F1 & L1 & _ & _ & B1).
+    destruct (remove_unref grow h1 (with_idx m s)) as [[h2 r]|] eqn:E2; auto.
+    destruct (remove_unref_ok (length h) _ _ _ _ E2 H0 ltac:(lia)) as (F2 & L2 & A2).
+    { apply with_idx_ok; [eapply Hget; eauto | apply B1; simpl; lia]. }
+    splits; leaf.
+  - (* OCrop *)
+    destruct (nth_error p i) as [m|] eqn:Gi; auto.
+    destruct (topo_eqb (topo m) Point); auto.
+    destruct (amap_get (v3 m) name) as [old|]; auto.
+    destruct (rebuild grow h m keep true Point nil_slice (mats m)) as [h1 r] eqn:E1.
+    destruct (new_slice h1 _ 0) as [h2 s'] eqn:E2.
+    destruct (Hget _ _ _ Gi (le_n _)) as (A & B & _).
+    destruct (rebuild_ok (length h) _ _ _ _ _ _ _ _ _ E1 H0 Hn) as (F1 & L1 & A1); auto.
+    assert (Hn1 : (length h) <= length h1) by lia. new1 E2 (length h) Hn1.
+    split; [eapply frame_trans; eauto|]. split; [lia|].
+    apply with_idx_ok; [eapply mesh_ok_mono; [|exact A1]; lia | unfold sl_ok; lia].
+  - (* OMulti *)
+    destruct (nth_error p i) as [m|] eqn:Gi; auto.
+    destruct (has_topo req (topo m) && _); auto.
+    destruct (copy_map grow h (v4 m)) as [h1 c4] eqn:E1.
+    destruct (copy_map grow h1 (v3 m)) as [h2 c3] eqn:E2.
+    destruct (copy_map grow h2 (v2 m)) as [h3 c2] eqn:E3.
+    destruct (copy_map grow h3 (v1 m)) as [h4 c1] eqn:E4.
+    destruct (copy_map_ok (length h) _ _ _ _ E1 H0 Hn) as (F1 & L1 & A1).
+    destruct (copy_map_ok (length h) _ _ _ _ E2 H0 ltac:(lia)) as (F2 & L2 & A2).
+    destruct (copy_map_ok (length h) _ _ _ _ E3 H0 ltac:(lia)) as (F3 & L3 & A3).
+    destruct (copy_map_ok (length h) _ _ _ _ E4 H0 ltac:(lia)) as (F4 & L4 & A4).
+    destruct (multi_loop grow h4 _ parts) as [[h5 rs]|] eqn:E5; auto.
+    destruct (Hget _ _ (length h4) Gi ltac:(lia)) as (A & B & _).
+    destruct (multi_loop_ok (length h) _ _ _ _ _ E5 H0 ltac:(lia)) as (F5 & L5 & A5).
+    { splits; cbn [idx mats v1 v2 v3 v4]; auto.
+      - eapply amap_ok_mono; [|exact A3]; lia.
+      - eapply amap_ok_mono; [|exact A2]; lia.
+      - eapply amap_ok_mono; [|exact A1]; lia. }
+    splits; auto; try lia.
+    eapply frame_trans; [exact F1|]. eapply frame_trans; [exact F2|]. eapply frame_trans; [exact F3|].
+    eapply frame_trans; [exact F4|]. exact F5.
 Qed.
 
 (* ---------------------------------------------------------------- states and histories *)
@@ -539,10 +655,14 @@ Lemma step_facts st o :
 Proof.
   intros [H1 Hp]. unfold step.
   pose proof (exec_ok (heap_of st) (pool st) o H1 Hp) as X.
-  destruct (exec grow true (heap_of st) (pool st) o) as [h' m|h'|c]; cbn [fst].
+  destruct (exec grow true (heap_of st) (pool st) o) as [h' m|h' ms|h'|c]; cbn [fst].
   - destruct X as (F & L & M). split; [|split; [exact F | exists [m]; reflexivity]].
     split; cbn [heap_of pool]; [lia|].
     apply Forall_app; split; [|constructor; [exact M|constructor]].
+    eapply Forall_impl; [|exact Hp]. intros a; apply mesh_ok_mono; exact L.
+  - destruct X as (F & L & M). split; [|split; [exact F | exists ms; reflexivity]].
+    split; cbn [heap_of pool]; [lia|].
+    apply Forall_app; split; [|exact M].
     eapply Forall_impl; [|exact Hp]. intros a; apply mesh_ok_mono; exact L.
   - subst h'. split; [split; auto|]. split; [apply frame_refl|]. exists []; rewrite app_nil_r; auto.
   - split; [split; auto|]. split; [apply frame_refl|]. exists []; rewrite app_nil_r; auto.
